@@ -165,7 +165,7 @@ def check_call(name, fn, args, kwargs, meta, interleave=None):
                            'an object passed as argument differs after the call (deep bitwise comparison)')
     if snap(kwargs) != before_k:
         return finding(name, REL_ARGS, inp, {'argument': '**kwargs', 'change': diff_path(before_k, snap(kwargs), 'kwargs')},
-                       'the dict unpacked with ** differs after the call')
+                       'an object passed by keyword (or the dict unpacked with **) differs after the call')
     r2 = call(fn, args, kwargs)
     if not same_outcome(r1, r2):
         return finding(name, REL_REP, inp, {'first': render_outcome(r1), 'second': render_outcome(r2)},
@@ -224,8 +224,9 @@ def pool_for(task, a, rng):
         ri, rl, ei, el = a
         p.update(ref_intervals=ri, ref_labels=rl, est_intervals=ei, est_labels=el, trim=False, frame_size=0.25)
         try:
-            ari, arl = _quiet(util.adjust_intervals, ri, labels=list(rl), t_min=0.0)
-            aei, ael = _quiet(util.adjust_intervals, ei, labels=list(el), t_min=0.0, t_max=float(ari.max()))
+            fill = {'start_label': 'N', 'end_label': 'N'} if task == 'chord' else {}
+            ari, arl = _quiet(util.adjust_intervals, ri, labels=list(rl), t_min=0.0, **fill)
+            aei, ael = _quiet(util.adjust_intervals, ei, labels=list(el), t_min=0.0, t_max=float(ari.max()), **fill)
             p.update(reference_intervals=ari, estimated_intervals=aei)
             if task == 'segment':
                 p.update(reference_labels=arl, estimated_labels=ael)
@@ -291,7 +292,7 @@ def pool_util(rng):
              precision=rng.choice([0.0, 0.5, 1.0]), recall=rng.choice([0.0, 0.25, 1.0]), items=list(rl),
              freqs=np.array([220.0, 440.0, 466.1637615180899]), midi=np.array([57.0, 69.0, 70.0]),
              time_points=np.arange(0.0, float(ri.max()) + 0.5, 0.25), flist1=['a/x.lab', 'a/y.lab'], flist2=['b/y.txt', 'b/z.txt'],
-             ref=ref, est=est, window=0.05, frequencies=np.array([0.0, 220.0, 440.0]), max_freq=5000.0, min_freq=20.0)
+             ref=ref, est=est, window=0.05, frequencies=np.array([110.0, 220.0, 440.0]), max_freq=5000.0, min_freq=20.0)
     p['function'] = util.f_measure
     special = {}
     try:
@@ -301,7 +302,6 @@ def pool_util(rng):
     except Exception:  # noqa
         pass
     special['adjust_events'] = {'labels': ['e%d' % i for i in range(len(p['events']))]}
-    special['filter_kwargs'] = '_filter_kwargs'
     return p, special
 
 
